@@ -107,6 +107,18 @@ class World(StackWorld):
         self.component._connect_once = counting_connect_once
         for name in ("connect", "join", "ready", "leave", "disconnect"):
             self.component.on(name, self.make_listener(name))
+        if ch.flag("an-extra-listener-removed-twice", 0.12):
+            # a listener of its own that the application removes again - and once more for good measure (a tidy-up that runs
+            # twice): the other listeners of the event are none of its business
+            ev_name = ch.pick(("join", "leave", "connect", "disconnect", "ready"), "extra-listener-event")
+            extra = lambda *a, **k: None  # noqa
+            self.component.on(ev_name, extra)
+            for _ in range(2):
+                try:
+                    self.component.off(ev_name, extra)
+                except Exception as e:  # noqa
+                    self.run.probe("second-off-raised:%s" % type(e).__name__)
+            self.run.probe("extra-listener-removed-twice")
         self.component.on("connectfailure", self.on_connectfailure)
         self.component.on("start", lambda *a: self.events.append(("start", None)))
         self.run.log("cfg", sorted((k, repr(v)) for k, v in cfg.items()), [sorted(s.items()) for s in self.tspec])
